@@ -48,3 +48,13 @@ Theorem C12_bounds : forall O ts objective lo hi, lp_spec 0 O -> wfl ts -> NoDup
   forall rho, sat_list rho ts -> Q2R lo <= lin rho objective <= Q2R hi.
 Proof. exact optimize_bounds. Qed.
 Print Assumptions C12_bounds.
+
+Require Import PyDict PyLoop PolyDomain WrapGen WrapGenBounds.
+(* ---- T1 tie: PolyhedralIoContract.get_variable_bounds as translated ON THIS RUN (gen/WrapGen.v), over whatever
+   optimize is: it maximises, then minimises the variable over the same contract and returns (minimum, maximum) *)
+Theorem C12_code_get_variable_bounds : forall (O : oracle) (num : Type) (optimize : pcontract O -> string -> bool -> M (option num))
+  (c : pcontract O) (v : string),
+  @PolyhedralIoContract_get_variable_bounds (poly_domain O) num optimize c v =
+  bind (optimize c v true) (fun maximum => bind (optimize c v false) (fun minimum => ret (minimum, maximum))).
+Proof. exact wrap_get_variable_bounds_eq. Qed.
+Print Assumptions C12_code_get_variable_bounds.
